@@ -279,6 +279,35 @@ def gridder_obligations():
     return tie("GridderSrc", _BASE_CLASSES, GRIDDER_FUNCS, "pylite_gridder.v.tmpl", GRIDDER_THEOREMS, GRIDDER_IMPORTS)
 
 
+GRIDDERM_FUNCS = GRIDDER_FUNCS + [(_BASE_UTILS, "check_data"), "BaseGridder.grid", "BaseGridder.scatter",
+                                  "BaseGridder.profile"]
+GRIDDERM_THEOREMS = ["src_BaseGridder_grid_eq", "src_BaseGridder_scatter_eq", "src_BaseGridder_profile_eq"]
+GRIDDERM_TEMPLATES = ["pylite_gridder.v.tmpl", "pylite_gridder_methods.v.tmpl"]
+
+
+def c05_obligations():
+    """gridder_obligations and, in the same generated file, the glue of BaseGridder.grid / scatter / profile
+    (harness/pylite_gridder_methods.v.tmpl): which callee receives which arguments in which order, what is
+    projected and what is not, what the Dataset / DataFrame is built from"""
+    return tie("GridderSrc", _BASE_CLASSES, GRIDDERM_FUNCS, GRIDDERM_TEMPLATES, GRIDDER_THEOREMS + GRIDDERM_THEOREMS,
+               GRIDDER_IMPORTS)
+
+
+SCORE_FUNCS = ["check_data", "score_estimator", (_BASE_CLASSES, "BaseGridder.score")]
+SCORE_THEOREMS = ["src_BaseGridder_score_eq", "src_score_estimator_eq"]
+SCORE_TEMPLATES = ["pylite_score.v.tmpl"]
+SCORE_IMPORTS = "From Verde Require Model.Scoring.\nFrom Verde Require Import Proofs.PyLiteBridge."
+
+
+def score_obligations():
+    """verde/base/utils.py score_estimator and BaseGridder.score against Model/Scoring.v score_tuple (property C12)"""
+    return tie("ScoreSrc", _BASE_UTILS, SCORE_FUNCS, SCORE_TEMPLATES, SCORE_THEOREMS, SCORE_IMPORTS)
+
+
+def c12_obligations():
+    return score_obligations()
+
+
 SURFER_FUNCS = ["_read_surfer_header", "_check_surfer_integrity"]
 SURFER_THEOREMS = ["src_read_surfer_header_eq", "src_check_surfer_integrity_eq"]
 SURFER_IMPORTS = ("From Verde Require Import Lib.Dyadic Model.Surfer Proofs.SurferProofs Proofs.PyLiteBridge "
